@@ -266,6 +266,12 @@ impl<const IV: u64> Sys<IV> {
         let inst = |s: &str| s.parse::<usize>().expect("instance");
         match w.as_slice() {
             ["conclog", _] => "ev=-".into(),
+            // not generated, no model: manual experiments only (`AggregateStore::warm` / `list`)
+            ["warm", i] => {
+                let r = self.stores[inst(i)].warm();
+                let l = self.stores[inst(i)].list().map(|v| v.iter().map(|h| h.to_string()).collect::<Vec<_>>().join(",")).unwrap_or("err".into());
+                format!("ret={} list={}", if r.is_ok() { "ok" } else { "err" }, l)
+            }
             ["fault", onoff] => {
                 self.fault = *onoff == "on";
                 self.apply_fault();
